@@ -92,7 +92,10 @@ def allowed_locs(I, fc, entry_env, old_heap):
         for loc in fc.modifies:
             if loc.endswith(".**"):
                 # every container reachable from the value (nested lists / dicts)
-                v0 = I.eval(ast.parse(loc[:-3], mode="eval").body)
+                try:
+                    v0 = I.eval(ast.parse(loc[:-3], mode="eval").body)
+                except SpecError:
+                    continue        # the base is None on this path: nothing to allow
                 stack = [v0]
                 while stack:
                     v = stack.pop()
